@@ -23,7 +23,7 @@ import tempfile
 
 from .. import bootstrap, build, pmap
 from ..ctx import Ctx
-from ..terms import to_json
+from ..terms import Term, to_json
 from ..tlc import MachineryError
 from ..tracekit import validate_traces
 from . import c01, c03
@@ -42,7 +42,17 @@ def load_event(folder: str, proc: str, storage_in: list, mapspecs_in: list) -> d
         with contextlib.redirect_stdout(io.StringIO()):
             info = RunInfo.load(folder)
             names = sorted(info.all_output_names)
-            e["loaded"] = [[n, to_json(load_outputs(n, run_folder=folder))] for n in names]
+            vals = [(n, load_outputs(n, run_folder=folder)) for n in names]
+            e["loaded"] = [[n, to_json(v)] for n, v in vals]
+            # what a caller does to a loaded value is the caller's business: scribble over the loaded arrays, a later
+            # load (same process) must still return what the run produced
+            import numpy as np
+            for _, v in vals:
+                if isinstance(v, np.ndarray) and v.dtype == object and v.size and v.flags.writeable:
+                    np.ma.getdata(v).flat[0] = "#scribbled"
+                elif isinstance(v, Term):           # a single (unmapped) output: the loaded object itself is altered
+                    v.f = "#scribbled"
+
         e["linputs"] = [[k, to_json(v)] for k, v in info.inputs.items()]
         e["ldefaults"] = [[k, to_json(v)] for k, v in info.defaults.items()]
         shapes = []
@@ -74,7 +84,8 @@ def storage_from_pairs(pairs: list):
     return {(tuple(k.split(",")) if "," in k else k): v for k, v in pairs}
 
 
-def run_and_reload(tdesc: dict, inputs: list, kinds: dict, storage, thorough: bool, root: str, entry: str = "map") -> dict:
+def run_and_reload(tdesc: dict, inputs: list, kinds: dict, storage, thorough: bool, root: str, entry: str = "map",
+                   resume_after: bool = False, inputs2: list | None = None) -> dict:
     """entry: "map" (sequential) | "async" (map_async through a thread pool) | "async-keep" (map_async with cleanup=False
     into a folder that does not exist yet: nothing to resume, the run is a whole run)."""
     if isinstance(storage, list):
@@ -97,7 +108,26 @@ def run_and_reload(tdesc: dict, inputs: list, kinds: dict, storage, thorough: bo
         if not isinstance(res, Exception):
             evs.append(load_event(folder, "same", st_in, ms_in))
             evs.append(load_event(folder, "same", st_in, ms_in))
+        if inputs2 is not None and not isinstance(res, Exception):
+            # a SECOND run into the same folder (cleanup=True) with other inputs / shapes, then loads in this same process
+            e2, res2 = pmap.do_map(pl, pdesc, pmap.inputs_to_py(inputs2, kinds), run_folder=folder, storage=storage,
+                                   parallel=False, load=False)
+            for x in e2:
+                if x["e"] in ("begin", "reject"):
+                    x["new_inputs"] = inputs2
+            evs += e2
+            if not isinstance(res2, Exception):
+                evs.append(load_event(folder, "same", st_in, ms_in))
         return {"ev": evs, "ms": ms_in}
+
+    def job3():
+        build.LOG.clear()
+        with contextlib.redirect_stdout(io.StringIO()):
+            pl = build.make_pipeline(pdesc)
+        # the identical request again on the kept folder: everything is stored, nothing may run, nothing may be refused
+        evs, _ = pmap.do_map(pl, pdesc, pmap.inputs_to_py(inputs2 or inputs, kinds), run_folder=folder, storage=storage,
+                             parallel=False, cleanup=False, load=False)
+        return {"ev": evs}
 
     def job2(ms_in):
         def f():
@@ -115,9 +145,25 @@ def run_and_reload(tdesc: dict, inputs: list, kinds: dict, storage, thorough: bo
             evs += p2["ev"]
             if thorough:
                 evs.append(load_in_new_interpreter(folder, st_in, p1["ms"]))
+            if resume_after:
+                code, p3 = in_child(job3)
+                if p3 is None:
+                    raise MachineryError(f"resume child exited with {code}")
+                evs += p3["ev"]
     finally:
         shutil.rmtree(folder, ignore_errors=True)
-    return {"desc": tdesc, "inputs": inputs, "ev": evs, "meta": {"storage": st_in, "kinds": kinds, "entry": entry}}
+    return {"desc": tdesc, "inputs": inputs, "ev": evs, "meta": {"storage": st_in, "kinds": kinds, "entry": entry,
+                                                                  "resume_after": resume_after, "inputs2": inputs2}}
+
+
+def shorter(inputs: list) -> list:
+    """Other inputs for a second run: every array loses its last element (other shapes) and the atoms are renamed."""
+    def ren(v):
+        if v["f"] == "#arr":
+            a = v["a"][:-1] if len(v["a"]) > 1 and all(x["f"] != "#arr" for x in v["a"]) else v["a"]
+            return {"f": "#arr", "a": [ren(x) for x in a]}
+        return {"f": v["f"] + "2", "a": []}
+    return [[n, ren(v)] for n, v in inputs]
 
 
 def do_map_async(pl, pdesc: dict, inp: dict, folder: str, storage, cleanup: bool) -> tuple[list[dict], object]:
@@ -240,6 +286,20 @@ def run(ctx: Ctx) -> None:
                 for entry in ("async", "async-keep"):
                     traces.append(run_and_reload(scens[sn]["desc"], scens[sn]["inputs"],
                                                  {n: "list" for n, _ in scens[sn]["inputs"]}, st, False, root, entry=entry))
+        # two runs into ONE folder (the second with other inputs and shapes) with loads in between, all in one process;
+        # then the identical request again with cleanup=False (nothing to do, nothing refused)
+        for sn in (["zip", "chain"] if quick else [s for s in scens if s not in ("gen", "twogen")]):
+            for st in storages:
+                traces.append(run_and_reload(scens[sn]["desc"], scens[sn]["inputs"], {n: "list" for n, _ in scens[sn]["inputs"]},
+                                             st, False, root, resume_after=True, inputs2=shorter(scens[sn]["inputs"])))
+        # a rank-1 internal shape given as a plain int, reloaded and then requested again on the kept folder
+        if "gen" in scens:
+            gd = copy.deepcopy(scens["gen"]["desc"])
+            for f in gd["funcs"]:
+                if len(f["internal"]) == 1:
+                    f["intshape"] = True
+            for st in storages:
+                traces.append(run_and_reload(gd, scens["gen"]["inputs"], {}, st, False, root, resume_after=True))
         # sessions: partial runs, then the rest with cleanup=False (sequentially and through pools), then reloads
         from . import c06
         scen6, cases6, _ = c06.export(ctx, "consumer")
@@ -301,7 +361,8 @@ def replay(rep: dict) -> int:
             t = resume_and_reload({"desc": w["desc"], "inputs": w["inputs"]}, w["meta"]["case"], storage_from_pairs(st),
                                   None if pool == "seq" else pool, root)
         else:
-            t = run_and_reload(w["desc"], w["inputs"], w["meta"]["kinds"], st, False, root, entry=entry)
+            t = run_and_reload(w["desc"], w["inputs"], w["meta"]["kinds"], st, False, root, entry=entry,
+                               resume_after=bool(w["meta"].get("resume_after")), inputs2=w["meta"].get("inputs2"))
     finally:
         shutil.rmtree(root, ignore_errors=True)
     for e in t["ev"]:
